@@ -932,6 +932,13 @@ impl ASN1Value {
                 ASN1Type::ElsewhereDeclaredType(e),
                 ASN1Value::LinkedNestedValue { supertypes, value },
             ) => {
+                if supertypes.contains(&e.identifier) {
+                    return Err(grammar_error!(
+                        LinkerError,
+                        "Failed to link value: type '{}' is defined in terms of itself",
+                        e.identifier
+                    ));
+                }
                 supertypes.push(e.identifier.clone());
                 if let ASN1Value::LinkedIntValue { integer_type, .. } = value.borrow_mut() {
                     let int_type = e.constraints.iter().fold(IntegerType::Unbounded, |acc, c| {
